@@ -1,3 +1,536 @@
 import VncModel.Client
+import VncSpec.Grammar
+/-!
+# C08 — Script commands run strictly one after another with the requested timing
+# C09 — vncdo's exit status tells the truth and --timeout bounds the run
+
+Model: VncModel/Client.lean (`startCmd`, `advance`, `resume`, `onConnected`, `onCommit`, `onTimer`, `exitStep`):
+the callback chain of vncdo as an executor over virtual time.  The executor *is* the abstraction of Twisted's
+Deferred chain (a callback returning a Deferred suspends the chain until it fires); that abstraction is validated
+by the correspondence run against the real vncdo, not proved.
+-/
 namespace Vnc
+
+/-- start/finish markers of a trace -/
+def markers : List Act → List (Nat × Bool)
+  | [] => []
+  | .start i :: r => (i, true) :: markers r
+  | .finish i :: r => (i, false) :: markers r
+  | _ :: r => markers r
+
+/-- `n` commands run to completion one after another, starting with number `i` -/
+def seqMarkers : Nat → Nat → List (Nat × Bool)
+  | _, 0 => []
+  | i, n+1 => (i, true) :: (i, false) :: seqMarkers (i + 1) n
+
+def ChainSt.suspended : ChainSt → Bool
+  | .waitTimer _ => true
+  | .waitDrag .. => true
+  | .waitCommit => true
+  | _ => false
+
+def ChainSt.isFailed : ChainSt → Bool
+  | .failed _ => true
+  | _ => false
+
+/-! ## helper lemmas: frame properties of `startCmd` -/
+
+def AllW (l : List Act) : Prop := ∀ act ∈ l, ∃ b, act = Act.write b
+
+theorem AllW_nil : AllW [] := by intro x hx; cases hx
+
+theorem AllW_map (ws : List Bytes) : AllW (ws.map Act.write) := by
+  intro x hx
+  rcases List.mem_map.1 hx with ⟨b, _, rfl⟩
+  exact ⟨b, rfl⟩
+
+/- NB: `requestAll core inc` must never be compared by the kernel with its unfolded body (the kernel would unfold the
+   matcher first and evaluate `packH ↑core.width`, i.e. `Nat.sub _ 65536`, in unary): unfold it at the function level. -/
+theorem requestAll_fun : requestAll = fun core inc =>
+    requestAll.match_1 (fun _ => List Act) (wUpdateRequest inc 0 0 core.width core.height)
+     (fun b => [Act.write b]) (fun _ => []) := by
+  delta requestAll
+  exact Eq.refl _
+
+theorem requestAll_cases (core : Core) (inc : Bool) :
+    requestAll core inc = [] ∨ ∃ b, requestAll core inc = [Act.write b] := by
+  rw [requestAll_fun]
+  dsimp only
+  generalize wUpdateRequest inc 0 0 core.width core.height = o
+  cases o with
+  | none => exact Or.inl rfl
+  | some b => exact Or.inr ⟨b, rfl⟩
+
+theorem requestAll_AllW (core : Core) (inc : Bool) : AllW (requestAll core inc) := by
+  rcases requestAll_cases core inc with h | ⟨b, h⟩ <;> rw [h]
+  · exact AllW_nil
+  · intro x hx
+    simp only [List.mem_singleton] at hx
+    exact ⟨_, hx⟩
+
+theorem keyActs_AllW {a : App} {op : KeyOp} {k : Word} {w : List Act} (h : keyActs a op k = some w) : AllW w := by
+  unfold keyActs at h
+  rcases Option.map_eq_some_iff.1 h with ⟨ws, _, rfl⟩
+  exact AllW_map ws
+
+theorem ptrActs_frame {a a' : App} {op : PtrOp} {w : List Act} (h : ptrActs a op = some (a', w)) :
+    a'.cmds = a.cmds ∧ a'.idx = a.idx ∧ a'.completed = a.completed ∧ a'.timers = a.timers ∧
+    a'.nextTimer = a.nextTimer ∧ a'.now = a.now ∧ AllW w := by
+  unfold ptrActs at h
+  rcases Option.map_eq_some_iff.1 h with ⟨ws, _, h2⟩
+  simp only [Prod.mk.injEq] at h2
+  rcases h2 with ⟨rfl, rfl⟩
+  exact ⟨rfl, rfl, rfl, rfl, rfl, rfl, AllW_map ws⟩
+
+theorem expectCompare_frame (a : App) (core : Core) (screen : Option Img) (box : Int × Int × Int × Int) (rms : Word)
+    (expected : List Nat) :
+    (expectCompare a core screen box rms expected).1.cmds = a.cmds ∧
+    (expectCompare a core screen box rms expected).1.idx = a.idx ∧
+    (expectCompare a core screen box rms expected).1.completed = a.completed ∧
+    AllW (expectCompare a core screen box rms expected).2.1 := by
+  have key : ∀ (m : Bool) (x : App × List Act × Bool),
+      x = (if m = true then (a, [], true)
+        else ({ a with waiter := some (.expect box rms expected) }, requestAll core screen.isSome, false)) →
+      x.1.cmds = a.cmds ∧ x.1.idx = a.idx ∧ x.1.completed = a.completed ∧ AllW x.2.1 := by
+    intro m x hx
+    cases m
+    · simp only [Bool.false_eq_true, if_false] at hx
+      subst hx
+      refine ⟨rfl, rfl, rfl, ?_⟩
+      dsimp only
+      exact requestAll_AllW core screen.isSome
+    · simp only [if_true] at hx
+      subst hx
+      exact ⟨rfl, rfl, rfl, AllW_nil⟩
+  exact key _ _ rfl
+
+def Frame (a : App) (x : App × List Act × Susp) : Prop :=
+  x.1.cmds = a.cmds ∧ x.1.idx = a.idx ∧ x.1.completed = a.completed ∧ AllW x.2.1
+
+theorem Frame_self (a : App) (s : Susp) : Frame a (a, [], s) := ⟨rfl, rfl, rfl, AllW_nil⟩
+
+theorem Frame_ptrActs {a a' : App} {op : PtrOp} {w : List Act} (s : Susp) (h : ptrActs a op = some (a', w)) :
+    Frame a (a', w, s) := by
+  have := ptrActs_frame h
+  exact ⟨this.1, this.2.1, this.2.2.1, this.2.2.2.2.2.2⟩
+
+theorem Frame_keyActs {a : App} {op : KeyOp} {k : Word} {w : List Act} (s : Susp) (h : keyActs a op k = some w) :
+    Frame a (a, w, s) := ⟨rfl, rfl, rfl, keyActs_AllW h⟩
+
+theorem Frame_req (a a' : App) (core : Core) (inc : Bool) (s : Susp) (h1 : a'.cmds = a.cmds) (h2 : a'.idx = a.idx)
+    (h3 : a'.completed = a.completed) : Frame a (a', requestAll core inc, s) := by
+  have h4 := requestAll_AllW core inc
+  generalize requestAll core inc = l at h4 ⊢
+  exact ⟨h1, h2, h3, h4⟩
+
+theorem startCmd_frame (a : App) (core : Core) (scr : Option Img) (c : Cmd) : Frame a (startCmd a core scr c) := by
+  cases c <;> delta startCmd <;> dsimp only
+  case keyPress =>
+    split
+    · next w h => exact Frame_keyActs _ h
+    · exact Frame_self _ _
+  case keyDown =>
+    split
+    · next w h => exact Frame_keyActs _ h
+    · exact Frame_self _ _
+  case keyUp =>
+    split
+    · next w h => exact Frame_keyActs _ h
+    · exact Frame_self _ _
+  case mouseMove =>
+    split
+    · next a' w h => exact Frame_ptrActs _ h
+    · exact ⟨rfl, rfl, rfl, AllW_nil⟩
+  case mousePress =>
+    split
+    · exact Frame_self _ _
+    · split
+      · next a' w h => exact Frame_ptrActs _ h
+      · exact Frame_self _ _
+  case mouseDown =>
+    split
+    · exact Frame_self _ _
+    · split
+      · next a' w h => exact Frame_ptrActs _ h
+      · exact Frame_self _ _
+  case mouseUp =>
+    split
+    · exact Frame_self _ _
+    · split
+      · next a' w h => exact Frame_ptrActs _ h
+      · exact Frame_self _ _
+  case mouseDrag x y =>
+    split
+    · split
+      · next a' w h => exact Frame_ptrActs _ h
+      · exact Frame_self _ _
+    · split
+      · exact Frame_self _ _
+      · next a' w h =>
+        have := ptrActs_frame h
+        exact ⟨this.1, this.2.1, this.2.2.1, this.2.2.2.2.2.2⟩
+  case pauseArg => exact ⟨rfl, rfl, rfl, AllW_nil⟩
+  case pauseDelay => exact ⟨rfl, rfl, rfl, AllW_nil⟩
+  case paste =>
+    split
+    · refine ⟨rfl, rfl, rfl, ?_⟩
+      intro x hx
+      simp only [List.mem_singleton] at hx
+      exact ⟨_, hx⟩
+    · exact Frame_self _ _
+  case captureScreen => exact Frame_req _ _ _ _ _ rfl rfl rfl
+  case captureRegion => exact Frame_req _ _ _ _ _ rfl rfl rfl
+  case expectScreen =>
+    split
+    · exact Frame_self _ _
+    · exact expectCompare_frame _ _ _ _ _ _
+  case expectRegion =>
+    split
+    · exact Frame_self _ _
+    · exact expectCompare_frame _ _ _ _ _ _
+
+/-! ## markers -/
+
+theorem markers_append (a b : List Act) : markers (a ++ b) = markers a ++ markers b := by
+  induction a with
+  | nil => simp [markers]
+  | cons x r ih => cases x <;> simp [markers, ih]
+
+theorem markers_AllW {l : List Act} (h : AllW l) : markers l = [] := by
+  induction l with
+  | nil => rfl
+  | cons x r ih =>
+    obtain ⟨b, rfl⟩ := h x (List.mem_cons_self ..)
+    simp only [markers]
+    exact ih fun y hy => h y (List.mem_cons_of_mem _ hy)
+
+theorem close_notin_AllW {l : List Act} (h : AllW l) : Act.close ∉ l := by
+  intro hc
+  obtain ⟨b, hb⟩ := h _ hc
+  cases hb
+
+theorem getLast?_append_some {α} (l₁ l₂ : List α) (x : α) (h : l₂.getLast? = some x) :
+    (l₁ ++ l₂).getLast? = some x := by
+  simp [List.getLast?_append, h]
+
+theorem advance_markers_aux (core : Core) (screen : Option Img) (fuel : Nat) (a : App) (hf : a.cmds.length < fuel) :
+    ∃ n, ((advance core screen fuel a).1.idx = a.idx + n) ∧
+      (((advance core screen fuel a).1.chain = .finished ∧ markers (advance core screen fuel a).2 = seqMarkers a.idx n ∧
+          (advance core screen fuel a).2.getLast? = some .close ∧ (advance core screen fuel a).1.cmds = [] ∧
+          (advance core screen fuel a).1.completed = true) ∨
+       (((advance core screen fuel a).1.chain.suspended = true ∨ (advance core screen fuel a).1.chain.isFailed = true) ∧
+          markers (advance core screen fuel a).2 = seqMarkers a.idx n ++ [(a.idx + n, true)] ∧
+          Act.close ∉ (advance core screen fuel a).2 ∧ (advance core screen fuel a).1.completed = a.completed)) := by
+  induction fuel generalizing a with
+  | zero => omega
+  | succ fuel ih =>
+    rw [advance]
+    split
+    · next hc =>
+      refine ⟨0, rfl, Or.inl ⟨rfl, ?_, rfl, hc, rfl⟩⟩
+      simp [markers, seqMarkers]
+    · next c rest hc =>
+      have hfr := startCmd_frame { a with cmds := rest } core screen c
+      generalize startCmd { a with cmds := rest } core screen c = r at hfr ⊢
+      obtain ⟨a1, ws, s⟩ := r
+      obtain ⟨h1, h2, h3, h4⟩ := hfr
+      dsimp only at h1 h2 h3 h4 ⊢
+      have hm := markers_AllW h4
+      have hcl := close_notin_AllW h4
+      cases s <;> dsimp only
+      case cont =>
+        have hlen : ({ a1 with idx := a.idx + 1, chain := ChainSt.running } : App).cmds.length < fuel := by
+          dsimp only; rw [h1]; rw [hc] at hf; simpa using hf
+        obtain ⟨n, hn, hcase⟩ := ih _ hlen
+        generalize advance core screen fuel { a1 with idx := a.idx + 1, chain := ChainSt.running } = r' at hn hcase ⊢
+        dsimp only at hn hcase ⊢
+        refine ⟨n + 1, by omega, ?_⟩
+        rcases hcase with ⟨e1, e2, e3, e4, e5⟩ | ⟨e1, e2, e3, e4⟩
+        · refine Or.inl ⟨e1, ?_, ?_, e4, e5⟩
+          · simp [markers_append, markers, hm, e2, seqMarkers]
+          · exact getLast?_append_some ([Act.start a.idx] ++ ws ++ [Act.finish a.idx]) _ _ e3
+        · refine Or.inr ⟨e1, ?_, ?_, ?_⟩
+          · simp [markers_append, markers, hm, e2, seqMarkers, Nat.add_assoc, Nat.add_comm 1 n]
+          · simp [hcl, e3]
+          · rw [e4, h3]
+      all_goals
+        refine ⟨0, h2, Or.inr ⟨by simp [ChainSt.suspended, ChainSt.isFailed], ?_, ?_, h3⟩⟩
+        · simp [markers_append, markers, hm, seqMarkers]
+        · simp [hcl]
+
+/-- **sequencing**: whatever `advance` does, commands start in order, each finishes before the next starts; it
+    stops either because everything is done (then it closes, last), or because command `a'.idx` is suspended /
+    failed right after its start marker -/
+theorem C08_advance_markers (core : Core) (screen : Option Img) (fuel : Nat) (a : App) (hf : a.cmds.length < fuel) :
+    let r := advance core screen fuel a
+    ∃ n, (r.1.idx = a.idx + n) ∧
+      ((r.1.chain = .finished ∧ markers r.2 = seqMarkers a.idx n ∧ r.2.getLast? = some .close ∧ r.1.cmds = [] ∧
+          r.1.completed = true) ∨
+       ((r.1.chain.suspended = true ∨ r.1.chain.isFailed = true) ∧ markers r.2 = seqMarkers a.idx n ++ [(a.idx + n, true)] ∧
+          Act.close ∉ r.2 ∧ r.1.completed = a.completed)) :=
+  advance_markers_aux core screen fuel a hf
+
+/-- bytes are only written by a command that has started and not finished: in the output of `advance`, every write
+    lies between a `start i` and the next marker -/
+def writesInside : Option Nat → List Act → Bool
+  | _, [] => true
+  | _, .start i :: r => writesInside (some i) r
+  | _, .finish _ :: r => writesInside none r
+  | cur, .write _ :: r => cur.isSome && writesInside cur r
+  | cur, .save .. :: r => cur.isSome && writesInside cur r
+  | cur, _ :: r => writesInside cur r
+
+theorem writesInside_AllW {ws : List Act} (h : AllW ws) (i : Nat) (rest : List Act) :
+    writesInside (some i) (ws ++ rest) = writesInside (some i) rest := by
+  induction ws with
+  | nil => rfl
+  | cons x r ih =>
+    obtain ⟨b, rfl⟩ := h x (List.mem_cons_self ..)
+    simp only [List.cons_append, writesInside, Option.isSome_some, Bool.true_and]
+    exact ih fun y hy => h y (List.mem_cons_of_mem _ hy)
+
+theorem C08_advance_writes (core : Core) (screen : Option Img) (fuel : Nat) (a : App) :
+    writesInside none (advance core screen fuel a).2 = true := by
+  induction fuel generalizing a with
+  | zero => rfl
+  | succ fuel ih =>
+    rw [advance]
+    split
+    · rfl
+    · next c rest hc =>
+      have hfr := startCmd_frame { a with cmds := rest } core screen c
+      generalize startCmd { a with cmds := rest } core screen c = r at hfr ⊢
+      obtain ⟨a1, ws, s⟩ := r
+      obtain ⟨h1, h2, h3, h4⟩ := hfr
+      dsimp only at h4 ⊢
+      cases s <;> dsimp only
+      case cont =>
+        have := ih { a1 with idx := a.idx + 1, chain := ChainSt.running }
+        simp only [List.append_assoc, List.cons_append, List.nil_append, writesInside, writesInside_AllW h4]
+        exact this
+      all_goals
+        have := writesInside_AllW h4 a.idx []
+        simp only [List.append_nil] at this
+        simp [this, writesInside_AllW h4, writesInside]
+
+/-- when the last command has finished vncdo closes the connection - and only then -/
+theorem C08_closes_last (core : Core) (screen : Option Img) (fuel : Nat) (a : App) (h : Act.close ∈ (advance core screen fuel a).2) :
+    (advance core screen fuel a).1.cmds = [] ∧ (advance core screen fuel a).1.chain = .finished := by
+  induction fuel generalizing a with
+  | zero => simp [advance] at h
+  | succ fuel ih =>
+    rw [advance] at h ⊢
+    split
+    · next hc => exact ⟨hc, rfl⟩
+    · next c rest hc =>
+      · rw [hc] at h
+        dsimp only at h
+        have hfr := startCmd_frame { a with cmds := rest } core screen c
+        generalize startCmd { a with cmds := rest } core screen c = r at hfr h ⊢
+        obtain ⟨a1, ws, s⟩ := r
+        obtain ⟨h1, h2, h3, h4⟩ := hfr
+        have hcl := close_notin_AllW h4
+        dsimp only at hcl h ⊢
+        cases s <;> dsimp only at h ⊢
+        case cont =>
+          apply ih
+          simpa [hcl] using h
+        all_goals simp [hcl] at h
+
+/-- a pause lasts exactly the requested time divided by the warp factor (`env.pauseTicks d`): it suspends the chain
+    on a timer due at `now + pauseTicks d`, writes nothing, and only that timer resumes it -/
+theorem C08_pause (core : Core) (screen : Option Img) (a : App) (d : Word) :
+    let r := startCmd a core screen (.pauseArg d)
+    r.2.1 = [] ∧ r.2.2 = .timer a.nextTimer ∧ r.1.timers = a.timers ++ [(a.nextTimer, a.now + a.env.pauseTicks d)] :=
+  ⟨rfl, rfl, rfl⟩
+
+theorem C08_timer_resumes (core : Core) (screen : Option Img) (a : App) (id : Nat) (h : a.chain = .waitTimer id) :
+    (onTimer core screen a id).2.head? = some (.finish a.idx) ∧
+    ∀ other, other ≠ id → (onTimer core screen a other).2 = [] ∧ (onTimer core screen a other).1.chain = a.chain := by
+  constructor
+  · simp [onTimer, h, resume]
+  · intro other ho
+    have : ¬ id = other := fun e => ho e.symm
+    simp [onTimer, h, this]
+
+/-- while the chain waits for a timer, a commit from the server does not make the script go on (no waiter is set) -/
+theorem C08_commit_does_not_resume_timer (core : Core) (screen : Option Img) (a : App) (id : Nat)
+    (h : a.chain = .waitTimer id) (hw : a.waiter = none) : onCommit core screen a = (a, []) := by
+  have _ := h   -- (not needed: with no waiter set a commit never resumes anything)
+  simp [onCommit, hw]
+
+/-- "every element that is not a delay pause and is not last is followed by a delay pause" -/
+def Sep : List Cmd → Prop
+  | [] => True
+  | [_] => True
+  | a :: b :: r => (a ≠ Cmd.pauseDelay → b = Cmd.pauseDelay) ∧ Sep (b :: r)
+
+theorem Sep_pd {l : List Cmd} (h : Sep l) : Sep (Cmd.pauseDelay :: l) := by
+  cases l with
+  | nil => trivial
+  | cons b r => exact ⟨fun hn => absurd rfl hn, h⟩
+
+theorem Sep_cmd_pd (c : Cmd) {l : List Cmd} (h : Sep l) : Sep (c :: Cmd.pauseDelay :: l) :=
+  ⟨fun _ => rfl, Sep_pd h⟩
+
+theorem Sep_getElem {l : List Cmd} (h : Sep l) :
+    ∀ i, (hi : i + 1 < l.length) → l[i]'(by omega) ≠ Cmd.pauseDelay → l[i + 1] = Cmd.pauseDelay := by
+  induction l with
+  | nil => intro i hi; simp at hi
+  | cons a t ih =>
+    cases t with
+    | nil => intro i hi; simp at hi
+    | cons b r =>
+      intro i hi
+      cases i with
+      | zero => exact h.1
+      | succ j =>
+        intro hne
+        exact ih h.2 j (by simpa using hi) hne
+
+theorem Parses_nil {fs : FS} {d : Bool} {cs : List Cmd} (h : Parses fs d [] cs) : cs = [] := by
+  cases h
+  rfl
+
+theorem Sep_sep (rest : List Word) {cs : List Cmd} (h : Sep cs) : Sep (sep true rest ++ cs) := by
+  unfold sep
+  split
+  · exact Sep_pd h
+  · exact h
+
+theorem Sep_rule {fs : FS} (c : Cmd) {rest : List Word} {cs : List Cmd} (hp : Parses fs true rest cs) (h : Sep cs) :
+    Sep (c :: sep true rest ++ cs) := by
+  by_cases hr : rest = []
+  · subst hr
+    rw [Parses_nil hp]
+    simp [sep, Sep]
+  · have : sep true rest = [Cmd.pauseDelay] := by simp [sep, hr]
+    rw [this]
+    exact Sep_cmd_pd c h
+
+theorem Sep_flatMap {α} (l : List α) (f : α → Cmd) {tail : List Cmd} (h : Sep tail) :
+    Sep (l.flatMap (fun x => [f x, Cmd.pauseDelay]) ++ tail) := by
+  induction l with
+  | nil => simpa using h
+  | cons x r ih =>
+    simp only [List.flatMap_cons, List.cons_append, List.nil_append]
+    exact Sep_cmd_pd _ ih
+
+theorem Parses_Sep {fs : FS} {ws : List Word} {cs : List Cmd} (h : Parses fs true ws cs) : Sep cs := by
+  induction h with
+  | done => trivial
+  | type t rest cs hp ih =>
+    have := Sep_flatMap t (fun ch => Cmd.keyPress [ch]) (Sep_sep rest ih)
+    simpa [List.append_assoc] using this
+  | typefile f content rest cs hr hp ih =>
+    have := Sep_flatMap (content.filter (· ≠ '\r'))
+      (fun c => Cmd.keyPress (if c = '\n' then "enter".toList else if c = '\t' then "tab".toList else [c]))
+      (Sep_sep rest ih)
+    simpa [typefileCmds, List.append_assoc] using this
+  | file f rest cs hc hf hp ih => exact Sep_sep _ ih
+  | _ => exact Sep_rule _ (by assumption) (by assumption)
+
+/-- with a delay configured, the compiled script has a delay pause after every command that is followed by anything -/
+theorem C08_delay (fs : FS) (ws : List Word) (cs : List Cmd) (h : Parses fs true ws cs) :
+    ∀ i, (hi : i + 1 < cs.length) → cs[i]'(by omega) ≠ Cmd.pauseDelay → cs[i + 1] = Cmd.pauseDelay :=
+  Sep_getElem (Parses_Sep h)
+
+/-! ## C09 -/
+
+/-- the script counts as completed only when every command has run and vncdo itself closed the connection -/
+theorem C09_completed_iff_closed (core : Core) (screen : Option Img) (fuel : Nat) (a : App) (h0 : a.completed = false) :
+    (advance core screen fuel a).1.completed = true ↔ Act.close ∈ (advance core screen fuel a).2 := by
+  induction fuel generalizing a with
+  | zero => simp [advance, h0]
+  | succ fuel ih =>
+    rw [advance]
+    split
+    · simp
+    · next c rest hc =>
+      have hfr := startCmd_frame { a with cmds := rest } core screen c
+      generalize startCmd { a with cmds := rest } core screen c = r at hfr ⊢
+      obtain ⟨a1, ws, s⟩ := r
+      obtain ⟨h1, h2, h3, h4⟩ := hfr
+      have hcl := close_notin_AllW h4
+      dsimp only at h3 hcl ⊢
+      cases s <;> dsimp only
+      case cont =>
+        have := ih { a1 with idx := a.idx + 1, chain := ChainSt.running } (by dsimp only; rw [h3, h0])
+        rw [this]
+        simp [hcl]
+      all_goals simp [hcl, h3, h0]
+
+/-- **exit status 0 only if** the script was complete and the connection then went down cleanly (vncdo's own close);
+    a refused connection, a failed authentication / protocol abort / server close before completion (all reported as
+    a lost connection while `completed = false`), a reset, and the timeout all give a non-zero status -/
+theorem C09_zero_only_if_completed (completed : Bool) (e : ExitSt) (now : Nat) (ev : ExitEv)
+    (h : (exitStep completed e now ev).status = 0) : completed = true ∧ ev = .lost true := by
+  cases ev with
+  | connectFailed => simp [exitStep, exitDone] at h
+  | timeout => simp [exitStep, exitDone] at h
+  | lost clean =>
+    cases clean <;> cases completed <;> simp [exitStep, exitDone] at h ⊢
+
+theorem C09_nonzero_cases (completed : Bool) (e : ExitSt) (now : Nat) :
+    (exitStep completed e now .connectFailed).status = 10 ∧
+    (exitStep completed e now (.lost false)).status = 10 ∧
+    (exitStep completed e now .timeout).status = 10 ∧
+    (exitStep false e now (.lost true)).status = 10 := by
+  cases completed <;> simp [exitStep, exitDone]
+
+/-- a whole history of exit-relevant events (each with the completion flag and time at which it happens) -/
+def exitRun (e : ExitSt) : List (Bool × Nat × ExitEv) → ExitSt
+  | [] => e
+  | (c, t, ev) :: r => exitRun (exitStep c e t ev) r
+
+theorem exitRun_append_singleton (e : ExitSt) (pre : List (Bool × Nat × ExitEv)) (c : Bool) (t : Nat) (ev : ExitEv) :
+    exitRun e (pre ++ [(c, t, ev)]) = exitStep c (exitRun e pre) t ev := by
+  induction pre generalizing e with
+  | nil => rfl
+  | cons x r ih =>
+    obtain ⟨c', t', ev'⟩ := x
+    simp only [List.cons_append, exitRun]
+    exact ih _
+
+theorem exitStep_stopAt (c : Bool) (e : ExitSt) (now : Nat) (ev : ExitEv) (t : Nat) (h : e.stopAt = some t) :
+    (exitStep c e now ev).stopAt = some t := by
+  cases ev <;> simp [exitStep, exitDone, h]
+  split <;> simp
+
+theorem exitRun_stopAt (e : ExitSt) (l : List (Bool × Nat × ExitEv)) (t : Nat) (h : e.stopAt = some t) :
+    (exitRun e l).stopAt = some t := by
+  induction l generalizing e with
+  | nil => exact h
+  | cons x r ih =>
+    obtain ⟨c', t', ev'⟩ := x
+    simp only [exitRun]
+    exact ih _ (exitStep_stopAt _ _ _ _ _ h)
+
+/-- the initial status is 1; after any history a status of 0 means the last event was a clean loss of a completed
+    script -/
+theorem C09_run_zero (evs : List (Bool × Nat × ExitEv)) (h : (exitRun {} evs).status = 0) :
+    ∃ pre t, evs = pre ++ [(true, t, .lost true)] := by
+  rcases List.eq_nil_or_concat evs with rfl | ⟨pre, x, rfl⟩
+  · simp [exitRun] at h
+  · obtain ⟨c, t, ev⟩ := x
+    rw [List.concat_eq_append, exitRun_append_singleton] at h
+    obtain ⟨rfl, rfl⟩ := C09_zero_only_if_completed _ _ _ _ h
+    exact ⟨pre, t, by simp⟩
+
+/-- `--timeout T`: once the timeout has fired at time T the reactor is stopped no later than T + 0.1 s (4096 ticks),
+    whatever happens afterwards; and the status is non-zero unless a completed script's clean close comes later -/
+theorem C09_timeout_bound (e : ExitSt) (c : Bool) (T : Nat) (later : List (Bool × Nat × ExitEv))
+    (he : ∀ t, e.stopAt = some t → t ≤ T + 4096) :
+    ∃ t, (exitRun (exitStep c e T .timeout) later).stopAt = some t ∧ t ≤ T + 4096 := by
+  cases hs : e.stopAt with
+  | none =>
+    refine ⟨T + 4096, exitRun_stopAt _ _ _ ?_, Nat.le_refl _⟩
+    simp [exitStep, exitDone, hs]
+  | some t0 =>
+    refine ⟨t0, exitRun_stopAt _ _ _ ?_, he t0 hs⟩
+    simp [exitStep, exitDone, hs]
+
+theorem C09_timeout_status (e : ExitSt) (c : Bool) (T : Nat) : (exitStep c e T .timeout).status ≠ 0 := by
+  simp [exitStep, exitDone]
+
 end Vnc
